@@ -8,6 +8,7 @@ connect is in progress.  The Python oracle (vf.cstate_c45.oracle45) evaluates th
 import json, os
 from vf import core
 from vf import cstate_c45 as c45
+from vf import cstate_legacy as leg
 
 META = {
     'technique': 'Coq proof (invariant over all operation histories + step lemmas) on a hand-written shutdown model + per-step differential '
@@ -141,12 +142,55 @@ def run(ctx):
                          case={'nhosts': n, 'ops': [list(o) for o in ops[:lo]]}, actual=encs[lo - 1])
 
 
+    # ---- native protocol v1/v2: the real legacy HostConnectionPool against Model/LegacyPool.v
+    lcases, lmeta = [], []
+
+    def lone(ops, encs, finds, sample=False):
+        for (k, m, thm, upto) in finds:
+            key = 'C45.' + k
+            if key in seen and len(seen[key]) <= upto:
+                continue
+            seen[key] = ops[:upto]
+            ctx.violation(key, '%s  [history %s]' % (m, json.dumps(ops[:upto])), case={'legacy': True, 'ops': [list(o) for o in ops[:upto]]},
+                          expected='statement of C45 (legacy pool)', actual=m, theorem=thm, kind='history')
+        ctx.case(['legacy', ops], nontrivial=any(o[0] in ('shutdown', 'racing') or (o[0] == 'run' and o[3]) for o in ops[:-1]),
+                 sample={'legacy_pool_ops': ops} if sample else None)
+        for o in ops:
+            ctx.count('legacy_op', o[0] + ('-d%d' % o[3] if o[0] == 'run' and o[3] else ''))
+        lcases.append(leg.coq_case(ops, encs))
+        lmeta.append((ops, encs))
+    with open(os.path.join(HERE, 'corpus', 'C45', 'legacy.json')) as f:
+        for item in json.load(f):
+            ops, encs, finds = leg.gen_and_run(ctx.rng, 0, script=item['ops'])
+            lone(ops, encs, finds, sample=True)
+    for i in range(300 if ctx.tier == 'quick' else 4000):
+        ops, encs, finds = leg.gen_and_run(ctx.rng, ctx.rng.choice([5, 7, 9, 11]))
+        lone(ops, encs, finds)
+    try:
+        lbad = ctx.coq_filter(['LegacyPool'], '(fun b : bool => b)', lcases)
+    except RuntimeError as e:
+        ctx.proof_broken.append(('correspondence:LegacyPool', str(e)[-600:]))
+        lbad = []
+    for i in lbad[:10]:
+        ops, encs = lmeta[i]
+        lo = len(ops)
+        for k in range(1, len(ops) + 1):
+            if ctx.coq_filter(['LegacyPool'], '(fun b : bool => b)', [leg.coq_case(ops[:k], encs[:k])]):
+                lo = k
+                break
+        ctx.disagreement('legacy-model-vs-impl', 'LegacyPool model and HostConnectionPool differ after step %d of %s: impl %r' % (lo, json.dumps(ops[:lo]), encs[lo - 1]),
+                         case={'legacy': True, 'ops': [list(o) for o in ops[:lo]]}, actual=encs[lo - 1])
+
+
 def replay(ctx, rp):
     case = rp.get('case') or {}
     if not isinstance(case, dict) or 'ops' not in case:
         print('nothing to replay: %s' % rp.get('theorem'))
         return 1
-    ops, encs, finds = c45.gen_and_run45(ctx.rng, case['nhosts'], 0, script=case['ops'])
+    if case.get('legacy'):
+        ops, encs, finds = leg.gen_and_run(ctx.rng, 0, script=case['ops'])
+    else:
+        ops, encs, finds = c45.gen_and_run45(ctx.rng, case['nhosts'], 0, script=case['ops'])
     for o, e in zip(ops, encs):
         print('%r -> %r' % (o, e))
     want = rp.get('key', '')
